@@ -597,6 +597,86 @@ def roundtrip (input : List Char) (perm : List Nat) : Option (List Char) :=
   | none => none
   | some (r, substs) => undo input (perm.filterMap (substs[·]?)) r
 
+/-! ### The hypothesis under which the undoing loop is right (specification, not code)
+
+`segsOf input` cuts the text `replace_names` returns into the characters it copied and the
+metavariables it renamed; `noSpurious` says that `z ++ name` occurs in that text only where a
+metavariable was renamed. -/
+
+/-- No occurrence of `P` starts inside `region` (in `region ++ rest`). -/
+def noOcc (P : List Char) : List Char → List Char → Bool
+  | [], _ => true
+  | c :: cs, rest => !isPrefix P (c :: cs ++ rest) && noOcc P cs rest
+
+/-- One piece of a text after `replace_names`: a character that was copied, or a metavariable. -/
+inductive Seg where
+  | lit (c : Char)
+  | var (k : Nat) (name : List Char)
+  deriving DecidableEq, Repr
+
+/-- The characters of a segment when the names in `done` are written with `$` again. -/
+def Seg.flat (done : List Char → Bool) : Seg → List Char
+  | .lit c => [c]
+  | .var k name => List.replicate (k - 1) '$' ++ (if done name then '$' else 'z') :: name
+
+def flatD (done : List Char → Bool) : List Seg → List Char
+  | [] => []
+  | s :: ss => s.flat done ++ flatD done ss
+
+/-- the text `replace_names` returns -/
+abbrev flatZ (segs : List Seg) : List Char := flatD (fun _ => false) segs
+/-- the text with every `$name` in place -/
+abbrev flatS (segs : List Seg) : List Char := flatD (fun _ => true) segs
+
+/-- every metavariable is written with one `$` -/
+def singles : List Seg → Bool
+  | [] => true
+  | .lit _ :: tl => singles tl
+  | .var k _ :: tl => k == 1 && singles tl
+
+/-- Every occurrence of `z ++ n` in the substituted text starts at a substituted `$m` whose name `m`
+begins with `n` (and none starts inside such a name). -/
+def safeFor (n : List Char) : List Seg → Bool
+  | [] => true
+  | .lit c :: tl => !isPrefix ('z' :: n) (c :: flatZ tl) && safeFor n tl
+  | .var _ m :: tl =>
+    (isPrefix n m || !isPrefix ('z' :: n) ('z' :: m ++ flatZ tl)) && noOcc ('z' :: n) m (flatZ tl) &&
+      safeFor n tl
+
+/-- The segments one step of the loop appends. -/
+def stepSegs (s : RState) (kc : RF.CharClasses.Kind × Char) : List Seg :=
+  if kc.1 != .normal then [.lit kc.2]
+  else if kc.2 == '$' then []
+  else if s.dollarCount == 0 then [.lit kc.2]
+  else if !isAlnum kc.2 && !s.curName.isEmpty then [.var s.dollarCount s.curName, .lit kc.2]
+  else []
+
+def loopSegs (s : RState) : List (RF.CharClasses.Kind × Char) → List Seg
+  | [] => []
+  | kc :: rest =>
+    match rstep s kc with
+    | none => []
+    | some s' => stepSegs s kc ++ loopSegs s' rest
+
+/-- The text `replace_names` returns, cut into copied characters and renamed metavariables. -/
+def segsOf (input : List Char) : List Seg :=
+  match rloop {} (RF.CharClasses.classes input) with
+  | none => []
+  | some s =>
+    loopSegs {} (RF.CharClasses.classes input) ++
+      (if !s.curName.isEmpty then [.var s.dollarCount s.curName] else [])
+
+def varNames : List Seg → List (List Char)
+  | [] => []
+  | .lit _ :: tl => varNames tl
+  | .var _ m :: tl => m :: varNames tl
+
+/-- `z ++ name` occurs in the substituted text only where a metavariable whose name begins with
+`name` was renamed, for every name; and every metavariable is written with a single `$`. -/
+def noSpurious (input : List Char) : Bool :=
+  let segs := segsOf input
+  singles segs && (varNames segs).all (fun n => safeFor n segs)
+
 /-! ## `MacroParser` (`macros.rs:1200-1290`) -/
 
 structure Branch where
